@@ -13,5 +13,5 @@ Emit(p) ==
                         openOptions |-> <<"WRITE", "CREATE", "APPEND">>]).exitValue = 0
 Next == i < Len(Progs) /\ Emit(Progs[i + 1]) /\ i' = i + 1
 Spec == Init /\ [][Next]_i
-Theorems == i > 0 => FlatIsFamilyFree(Progs[i]) /\ FlatIsIdempotent(Progs[i])
+Theorems == i > 0 => FlatIsFamilyFree(Progs[i]) /\ FlatIsIdempotent(Progs[i]) /\ PartialBlockNamesIrrelevant(Progs[i])
 =============================================================================
